@@ -113,6 +113,10 @@ pub enum Act {
     Drain { run: usize },
     /// pair sessions with a late second run: create (call the API of) run `run` now
     Start { run: usize },
+    /// send the signal right after the `k`-th of the following polls of the root future, whether or not
+    /// a wake-up is pending then (a sender on another thread: the signal lands between two polls of one
+    /// burst, not at a quiescent point)
+    After { run: usize, k: usize },
 }
 
 impl Act {
@@ -128,6 +132,7 @@ impl Act {
             Act::Abort { run } => format!("abort:{}", run),
             Act::Drain { run } => format!("drain:{}", run),
             Act::Start { run } => format!("start:{}", run),
+            Act::After { run, k } => format!("after:{}:{}:intr", run, k),
         }
     }
     pub fn parse(s: &str) -> Option<Act> {
@@ -142,6 +147,7 @@ impl Act {
             "abort" => Act::Abort { run },
             "drain" => Act::Drain { run },
             "start" => Act::Start { run },
+            "after" => Act::After { run, k: t.get(2)?.parse().ok()? },
             _ => return None,
         })
     }
@@ -386,6 +392,10 @@ fn mk_opts<'a>(cfg: &RunCfg, sh: &Rc<Shared>, run: usize, shared: Option<&'a mut
             0 => {
                 if cfg.rev {
                     opts = opts.rev();
+                    // "calling rev() repeatedly is the same as calling it once"
+                    if cfg.ord >= 6 {
+                        opts = opts.rev();
+                    }
                 }
             }
             1 => {
@@ -778,6 +788,7 @@ pub struct RunView {
 struct RunSt<'a> {
     cfg: RunCfg,
     root: Root<'a>,
+    intr_after: Option<usize>,
     flag: Arc<Flag>,
     finished: bool,
     intr_sent: bool,
@@ -863,6 +874,7 @@ pub fn session<'g>(
         runs.push(RunSt {
             cfg: cfgs[0].clone(),
             root,
+            intr_after: None,
             flag: Arc::new(Flag(AtomicBool::new(true))),
             finished: false,
             intr_sent: false,
@@ -879,6 +891,7 @@ pub fn session<'g>(
             runs.push(RunSt {
                 cfg: c.clone(),
                 root,
+                intr_after: None,
                 flag: Arc::new(Flag(AtomicBool::new(true))),
                 finished: false,
                 intr_sent: false,
@@ -967,6 +980,12 @@ pub fn session<'g>(
                         drain_stream(r, *run, &sh, coop);
                     }
                 }
+                Act::After { run, k } => {
+                    if let Some(r) = runs.get_mut(*run) {
+                        r.intr_after = Some(*k);
+                        r.intr_sent = true;
+                    }
+                }
                 Act::Start { run } => {
                     if let (Some(r), Some(g)) = (runs.get_mut(*run), gshared_opt) {
                         if let Root::Late = r.root {
@@ -1047,7 +1066,16 @@ pub fn session<'g>(
                                 sh.ev(format!("ev {} {}", i, v.text()));
                                 r.root = Root::Gone;
                             }
-                            Ok(Poll::Pending) => {}
+                            Ok(Poll::Pending) => {
+                                if let Some(k) = r.intr_after {
+                                    if k == 0 {
+                                        r.intr_after = None;
+                                        sh.send_intr(i);
+                                    } else {
+                                        r.intr_after = Some(k - 1);
+                                    }
+                                }
+                            }
                             Err(e) => {
                                 let msg = e
                                     .downcast_ref::<&str>()
